@@ -5,9 +5,14 @@
 
    rows   : what the SQL statement yields without LIMIT, in SQL order       keep : the Python-side post-filter
    pp     : Postprocessing is truthy (limit implemented in Python)           c    : raw page size and filter factor
-   visible pp keep rows = if pp then filter keep rows else rows             lim_ok = None or Some k with 0 <= k *)
+   visible pp keep rows = if pp then filter keep rows else rows             lim_ok = None or Some k with 0 <= k
+
+   The g* definitions (Model/PagingPP.v: gapply, grun_pages, gexecute, giterate, gcount, gany) run the counter logic of
+   `Postprocessing.apply` REGENERATED from /repo on every run (Gen/PostprocGen.v, harness/translators/postproc.py) inside
+   the generator / raw-page-loop skeleton; the section "the coded raw-page loop" states the paging clauses over them. *)
 From Coq Require Import ZArith List Bool Permutation Sorting.Sorted.
 From V Require Import Model.Paging Proofs.PagingProofs Proofs.PagingProofsOrder.
+From V Require Import Model.PagingPPBase Gen.PostprocGen Model.PagingPP Proofs.PagingProofsX.
 Import ListNotations.
 Open Scope Z_scope.
 
@@ -182,6 +187,113 @@ Theorem selected_rows_carry_the_values : forall (d : dataid) (r : row) (k : nat)
 Proof. exact dataid_pred_sound. Qed.
 Print Assumptions selected_rows_carry_the_values.
 
+(* ---- the coded raw-page loop: Postprocessing.apply as regenerated from the source -------------------------- *)
+(* the regenerated generator computes exactly what the hand-written model (the one the correspondence run compares with
+   the implementation) computes: every limit (negative ones too), every row sequence, every filter, every page list *)
+Theorem postproc_refines_model : forall (A : Type) (t c : bool) (keep : A -> bool) (lim : option Z) (rows : list A)
+    (pgs : list (list A)) (cf : cfg) (pp e x : bool),
+  gapply t c keep lim rows = apply (t || c) keep lim rows
+  /\ grun_pages t c keep lim pgs = run_pages (t || c) keep lim pgs
+  /\ gexecute cf pp keep lim rows = execute cf pp keep lim rows
+  /\ gcount pp keep lim rows e x = count pp keep lim rows e x
+  /\ gany pp keep lim rows e x = any pp keep lim rows e x.
+Proof. exact (@refines_p). Qed.
+Print Assumptions postproc_refines_model.
+
+(* iterating over the result pages yields every passing row exactly once, in order -- every raw page size >= 0 (0 is
+   SQLAlchemy's one-row partitions), every filter factor, with and without post-filtering *)
+Theorem pages_exactly_once : forall (A : Type) (c : cfg) (pp : bool) (keep : A -> bool) (rows : list A),
+  0 <= raw_page c -> 0 <= factor c ->
+  giterate c pp keep None rows = visible pp keep rows
+  /\ (NoDup rows -> NoDup (giterate c pp keep None rows))
+  /\ (forall r, In r (giterate c pp keep None rows) <-> In r rows /\ (pp = true -> keep r = true)).
+Proof. exact (@pages_exactly_once_p). Qed.
+Print Assumptions pages_exactly_once.
+
+(* the same for equal-sized chunks of ANY size n >= 1 and any limit, check_validity_match_count on or off *)
+Theorem pages_exactly_once_every_page_size : forall (A : Type) (keep : A -> bool) (n : nat) (lim : option Z) (rows : list A) (cv : bool),
+  (1 <= n)%nat -> lim_ok lim ->
+  concat (grun_pages true cv keep lim (pages n rows)) = firstn_opt lim (filter keep rows).
+Proof. exact (@pages_exactly_once_n_p). Qed.
+Print Assumptions pages_exactly_once_every_page_size.
+
+(* ... and for ANY split of the rows into raw pages (ragged, empty pages included); the counter left in the object is
+   the limit minus the number of rows handed out so far, and never negative *)
+Theorem pages_exactly_once_any_partition : forall (A : Type) (t c : bool) (keep : A -> bool) (pgs : list (list A)) (lim : option Z),
+  t || c = true -> lim_ok lim ->
+  concat (grun_pages t c keep lim pgs) = firstn_opt lim (filter keep (concat pgs))
+  /\ gfinal_limit t c keep lim pgs = lim_after lim (zlen (concat (grun_pages t c keep lim pgs)))
+  /\ lim_ok (gfinal_limit t c keep lim pgs).
+Proof. exact (@gpages_exact_p). Qed.
+Print Assumptions pages_exactly_once_any_partition.
+
+(* with a limit: exactly the first `k` passing rows, whatever the raw page size *)
+Theorem limit_prefix_pages : forall (A : Type) (c : cfg) (pp : bool) (keep : A -> bool) (k : Z) (rows : list A),
+  0 <= raw_page c -> 0 <= factor c -> 0 <= k ->
+  giterate c pp keep (Some k) rows = firstn (Z.to_nat k) (visible pp keep rows)
+  /\ giterate c pp keep (Some k) rows = firstn (Z.to_nat k) (giterate c pp keep None rows)
+  /\ zlen (giterate c pp keep (Some k) rows) = Z.min k (zlen (visible pp keep rows)).
+Proof. exact (@limit_prefix_pages_p). Qed.
+Print Assumptions limit_prefix_pages.
+
+Theorem page_size_irrelevant_pages : forall (A : Type) (c1 c2 : cfg) (pp : bool) (keep : A -> bool) (lim : option Z) (rows : list A),
+  0 <= raw_page c1 -> 0 <= factor c1 -> 0 <= raw_page c2 -> 0 <= factor c2 -> lim_ok lim ->
+  giterate c1 pp keep lim rows = giterate c2 pp keep lim rows.
+Proof. exact (@page_size_irrelevant_pages_p). Qed.
+Print Assumptions page_size_irrelevant_pages.
+
+(* once the limit is reached, every later raw page comes out empty (they are still read: wasteful, not wrong) *)
+Theorem after_limit_pages_are_empty : forall (A : Type) (t c : bool) (keep : A -> bool) (pgs1 pgs2 : list (list A)) (k : Z),
+  t || c = true -> 0 <= k ->
+  zlen (concat (grun_pages t c keep (Some k) pgs1)) = k ->
+  grun_pages t c keep (Some k) (pgs1 ++ pgs2) = grun_pages t c keep (Some k) pgs1 ++ map (fun _ => []) pgs2.
+Proof. exact (@after_limit_empty_p). Qed.
+Print Assumptions after_limit_pages_are_empty.
+
+(* no row moves to another page: each output page is a prefix of the passing rows of its own raw page *)
+Theorem page_outputs_stay_in_their_page : forall (A : Type) (t c : bool) (keep : A -> bool) (pgs : list (list A)) (lim : option Z),
+  t || c = true -> lim_ok lim ->
+  Forall2 (fun p o => exists n : nat, o = firstn n (filter keep p)) pgs (grun_pages t c keep lim pgs).
+Proof. exact (@page_outputs_local_p). Qed.
+Print Assumptions page_outputs_stay_in_their_page.
+
+(* count / any (as coded: one apply over the whole result) agree with the paged iteration *)
+Theorem count_any_agree_pages : forall (A : Type) (c : cfg) (pp : bool) (keep : A -> bool) (lim : option Z) (rows : list A),
+  0 <= raw_page c -> 0 <= factor c -> lim_ok lim ->
+  gcount pp keep lim rows true true = Ok (zlen (giterate c pp keep lim rows))
+  /\ gany pp keep lim rows true true = Ok (negb (is_nil (giterate c pp keep lim rows)))
+  /\ (exists n, gcount pp keep lim rows false true = Ok n /\ zlen (giterate c pp keep lim rows) <= n)
+  /\ (forall e x, gany pp keep lim rows e x = Ok false -> giterate c pp keep lim rows = []).
+Proof. exact (@count_any_agree_pages_p). Qed.
+Print Assumptions count_any_agree_pages.
+
+(* the three spellings of one constraint give the same pages, the same limited prefix and the same counts *)
+Theorem constraint_spellings_paged : forall (c : cfg) (pp : bool) (keep : row -> bool) (lim : option Z) (d kw : dataid) (rows : list row),
+  NoDup (keys_of d) -> NoDup (keys_of kw) ->
+  let m := merge d kw in
+  giterate c pp keep lim (filter (constraint_pred d kw) rows) = giterate c pp keep lim (filter (dataid_pred m) rows)
+  /\ giterate c pp keep lim (filter (kw_pred m) rows) = giterate c pp keep lim (filter (dataid_pred m) rows)
+  /\ giterate c pp keep lim (filter (where_pred m) rows) = giterate c pp keep lim (filter (dataid_pred m) rows)
+  /\ (forall e x, gcount pp keep lim (filter (constraint_pred d kw) rows) e x = gcount pp keep lim (filter (where_pred m) rows) e x
+                  /\ gcount pp keep lim (filter (kw_pred m) rows) e x = gcount pp keep lim (filter (where_pred m) rows) e x).
+Proof. exact spellings_paged_p. Qed.
+Print Assumptions constraint_spellings_paged.
+
+(* what the in-place update of self._limit is needed for.  Same skeleton, counter kept in a local variable:
+   (b) written back only after the loop (seed C16b): the `return` at the limit skips it;
+   (a) written back only when it reaches 0 (seed C16a): a page that ends before the limit forgets its rows *)
+Theorem writeback_after_loop_only_refuted : exists (lim : Z) (pgs : list (list Z)),
+  0 <= lim /\ concat (vb_pages (fun _ => true) (Some lim) pgs) <> firstn (Z.to_nat lim) (concat pgs)
+  /\ zlen (concat (vb_pages (fun _ => true) (Some lim) pgs)) > lim.
+Proof. exact writeback_after_loop_only_refuted_p. Qed.
+Print Assumptions writeback_after_loop_only_refuted.
+
+Theorem writeback_at_zero_only_refuted : exists (lim : Z) (pgs : list (list Z)),
+  0 <= lim /\ concat (va_pages (fun _ => true) (Some lim) pgs) <> firstn (Z.to_nat lim) (concat pgs)
+  /\ zlen (concat (va_pages (fun _ => true) (Some lim) pgs)) > lim.
+Proof. exact writeback_at_zero_only_refuted_p. Qed.
+Print Assumptions writeback_at_zero_only_refuted.
+
 (* ---- non-vacuity ------------------------------------------------------------------------------------------ *)
 Example ex_paging : iterate {| raw_page := 2; factor := 1 |} true (fun x => negb (x =? 3)) (Some 3) [1; 2; 3; 4; 5; 6] = [1; 2; 4]
   /\ execute {| raw_page := 2; factor := 1 |} true (fun x => negb (x =? 3)) (Some 3) [1; 2; 3; 4; 5; 6] = [[1; 2]; [4]; []].
@@ -207,3 +319,14 @@ Proof. vm_compute. auto. Qed.
 Example ex_butler_negative : butler_query {| raw_page := 2; factor := 10 |} false (fun _ : Z => true) (Some (-2)) true [1; 2; 3]
   = (Ok [1; 2], true).
 Proof. vm_compute. reflexivity. Qed.
+
+Example ex_coded_pages : gexecute {| raw_page := 2; factor := 1 |} true (fun x => negb (x =? 3)) (Some 3) [1; 2; 3; 4; 5; 6] = [[1; 2]; [4]; []]
+  /\ gfinal_limit true false (fun x => negb (x =? 3)) (Some 3) [[1; 2]; [3; 4]; [5; 6]] = Some 0
+  /\ gfinal_limit true false (fun x => negb (x =? 3)) (Some 9) [[1; 2]; [3; 4]; [5; 6]] = Some 4
+  /\ gcount true (fun x => negb (x =? 3)) (Some 3) [1; 2; 3; 4; 5; 6] true true = Ok 3.
+Proof. vm_compute. auto. Qed.
+
+Example ex_seeded_variants : concat (vb_pages (fun _ : Z => true) (Some 1) [[1; 2]; [3; 4]; [5; 6]]) = [1; 3; 5]
+  /\ concat (va_pages (fun _ : Z => true) (Some 3) [[1; 2]; [3; 4]; [5; 6]]) = [1; 2; 3; 4; 5; 6]
+  /\ concat (grun_pages true false (fun _ : Z => true) (Some 3) [[1; 2]; [3; 4]; [5; 6]]) = [1; 2; 3].
+Proof. vm_compute. auto. Qed.
